@@ -25,6 +25,11 @@ func builtinGlobalEval(call FunctionCall) Value {
 		rt.enterGlobalScope()
 		defer rt.leaveScope()
 	}
+	// Bindings declared by eval code are deletable (ES5 10.4.2, 10.5).
+	scope := rt.scope
+	previous := scope.eval
+	scope.eval = true
+	defer func() { scope.eval = previous }()
 	returnValue := rt.cmplEvaluateNodeProgram(program, true)
 	if returnValue.isEmpty() {
 		return Value{}
